@@ -64,6 +64,32 @@ def run(tier, seed):
     out.cov["trait_methods"] = dict(total=len(tm), through_both_routes_here=len([m for m in tm if m in covered]), elsewhere=elsewhere, not_exercised=missing)
     if missing:
         out.add_violation(["trait-method-not-routed", ",".join(missing)], record=dict(methods=missing), validator="method-table")
+    # handles through the enum: the same write/flush/drop and read/seek sequences on each backend directly and via Vfs::stdfs() /
+    # Vfs::memfs(), observer readings after every write included; TLC requires identical transcripts
+    try:
+        vlib.build("handles")
+        dh = vlib.sub("handles-route")
+        fs = vlib.run_workers("handles", ["--set", "wr", "--tier", tier, "--seed", str(seed), "--sandbox", os.path.join(dh, "sb")], 4, dh, "wr")
+        checked, classes = vlib.tlc_validate("Trace_Handle", vlib.split_chunks(fs, dh, "wrc", 2500))
+        out.absorb("Trace_Handle", checked, classes, label="handles direct vs enum")
+    except vlib.Stall as st:
+        vlib.stall_violation(out, st, "handles:wr")
+    # config_dir through the enum (xdgprobe asks Vfs::memfs() / Vfs::stdfs() and the backend directly): the environments in which
+    # the user's directory cannot be determined but a system directory holds the file, and the ordinary ones
+    from props import c18
+    specs = [(dict(HOME=h, XDG_CONFIG_HOME=ch, XDG_CONFIG_DIRS=dirs), 1, "route")
+             for h in (None, "@/home", "") for ch in (None, "@/ch", "rel/ch") for dirs in (None, "@/s1", "@/a::@/b:")]
+    dx = vlib.sub("c13-xdg")
+    try:
+        envs, files = c18.drive(out, specs, dx, parallel=8)
+        penv = os.path.join(dx, "penv.json")
+        with open(penv, "w") as fh:
+            json.dump(dict(envs=[c18.penv_obj(e) for e in envs]), fh)
+        chunks, _n = c18.merge_chunks(files, dx, nchunks=4)
+        checked, classes = vlib.tlc_validate("Trace_Xdg", chunks, extra_env=dict(PENV=penv))
+        out.absorb("Trace_Xdg", checked, classes, label="config_dir direct and through the enum")
+    except vlib.Stall as st:
+        vlib.stall_violation(out, st, "xdgprobe")
     out.finish(dict(rule="the same seeded histories (random with respelled arguments, link grid, data) executed on Memfs directly and through Vfs::Memfs; both transcripts validated by "
                          "Trace_Vfs and compared event for event; every entry() result also carries the VfsEntry accessors vs the wrapped entry's accessors (wrap flag); "
                          "Vfs::Stdfs routing is compared in C02"))
